@@ -419,6 +419,30 @@ func c18(ctx *Ctx) (*Outcome, error) {
 				inv: &cli.Inv{Files: []batch.File{{Path: "shape.json", Data: []byte(sh.text)}}, Args: args, Seed: map[string][]byte{"out/gen.go": []byte(sentinel)}}})
 		}
 	}
+	// the same ungeneratable elements 1 ... 40 levels below the root, along chains of properties, items, map values and
+	// alternations of them, below a definition and below a composition member; and the fault-free chains themselves
+	for _, sh := range deepShapes(ctx.N(0, 1) == 1) {
+		for ai, extra := range [][]string{nil, {"--only-models"}} {
+			if strings.HasPrefix(sh.class, "deep-ok:") {
+				args := append(append([]string{"-p", "valid", "-o", "out/gen.go"}, extra...), "shape.json")
+				jobs = append(jobs, &c18job{class: "valid:" + sh.class, label: fmt.Sprintf("%s (args %d)", sh.label, ai), outFile: "out/gen.go",
+					inv: &cli.Inv{Files: []batch.File{{Path: "shape.json", Data: []byte(sh.text)}}, Args: args}})
+				continue
+			}
+			outFile := "out/gen.go"
+			args := append([]string{"-p", "faulty", "-o", outFile}, extra...)
+			if ai == 1 {
+				args, outFile = append([]string{"-p", "faulty"}, extra...), "" // stdout mode
+			}
+			args = append(args, "shape.json")
+			doc, _ := jsonx.Parse([]byte(sh.text))
+			inv := &cli.Inv{Files: []batch.File{{Path: "shape.json", Data: []byte(sh.text)}}, Args: args}
+			if outFile != "" {
+				inv.Seed = map[string][]byte{outFile: []byte(sentinel)}
+			}
+			jobs = append(jobs, &c18job{class: "fault-" + sh.class, label: fmt.Sprintf("%s (args %d)", sh.label, ai), outFile: outFile, must: true, doc: doc, path: pathToKey(doc, "bad"), inv: inv})
+		}
+	}
 	for _, sh := range defaultShapes() {
 		for ai, extra := range [][]string{nil, {"--only-models"}, {"--extra-imports", "--min-sized-ints"}} {
 			args := append(append([]string{"-p", "valid", "-o", "out/gen.go"}, extra...), "shape.json")
@@ -699,6 +723,72 @@ func faultShapes() []compShape {
 			for _, pos := range positions {
 				out = append(out, compShape{class: f.name + ":" + l.name + "@" + pos.name, label: fmt.Sprintf("%s in %s at %s", f.name, l.name, pos.name), text: pos.text})
 			}
+		}
+	}
+	return out
+}
+
+// deepShapes: an ungeneratable element d levels below the root (d = 1 ... 40), reached over a chain of inline object
+// properties, of array items, of map values, alternating, starting inside a definition or inside an allOf / anyOf member.
+// "At any depth": no level may turn the fault into a silent interface{}. The fault-free chain of the same depth is a
+// valid input (class deep-ok).
+func deepShapes(thorough bool) []compShape {
+	faults := []struct{ name, text string }{{"unknown-type", `{"type":"decimal"}`}, {"missing-definition", `{"$ref":"#/$defs/Missing"}`}, {"empty-enum", `{"enum":[]}`},
+		{"missing-file", `{"$ref":"./not-there.json"}`}, {"non-primitive-enum", `{"enum":[{"x":1}]}`}}
+	depths := []int{1, 2, 4, 6, 8, 10, 11, 12, 13, 14, 16, 20, 24, 32, 40}
+	if thorough {
+		depths = nil
+		for d := 1; d <= 48; d++ {
+			depths = append(depths, d)
+		}
+	}
+	chain := func(kind string, d int, leaf string) string {
+		// level k wraps what is below it
+		cur := `{"type":"object","properties":{"bad":` + leaf + `,"ok":{"type":"string"}}}`
+		for k := d - 1; k >= 1; k-- {
+			step := kind
+			if kind == "alternating" {
+				step = []string{"property", "items", "map"}[k%3]
+			}
+			switch step {
+			case "property":
+				cur = fmt.Sprintf(`{"type":"object","properties":{"l%d":%s,"s%d":{"type":"integer"}}}`, k, cur, k)
+			case "items":
+				cur = `{"type":"array","items":` + cur + `}`
+			case "map":
+				cur = `{"type":"object","additionalProperties":` + cur + `}`
+			}
+		}
+		return cur
+	}
+	var out []compShape
+	for _, kind := range []string{"property", "items", "map", "alternating"} {
+		for _, d := range depths {
+			for fi, f := range faults {
+				if !thorough && (fi+d)%2 == 1 && fi > 0 {
+					continue
+				}
+				for _, start := range []string{"root", "definition", "allOf-member", "anyOf-member"} {
+					body := chain(kind, d, f.text)
+					var text string
+					switch start {
+					case "root":
+						text = `{"type":"object","properties":{"top":` + body + `}}`
+					case "definition":
+						text = `{"type":"object","properties":{"top":{"$ref":"#/$defs/Deep"}},"$defs":{"Deep":` + body + `}}`
+					case "allOf-member":
+						text = `{"type":"object","properties":{"top":{"allOf":[{"type":"object","properties":{"q":{"type":"string"}}},{"type":"object","properties":{"in":` + body + `}}]}}}`
+					default:
+						text = `{"type":"object","properties":{"top":{"anyOf":[{"type":"object","properties":{"q":{"type":"string"}}},{"type":"object","properties":{"in":` + body + `}}]}}}`
+					}
+					if !thorough && start != "root" && d%4 != 0 && d != 13 {
+						continue
+					}
+					out = append(out, compShape{class: fmt.Sprintf("deep:%s:%s@%s", f.name, kind, start), label: fmt.Sprintf("%s %d levels down a %s chain from %s", f.name, d, kind, start), text: text})
+				}
+			}
+			ok := `{"type":"object","properties":{"top":` + chain(kind, d, `{"type":"string","minLength":1}`) + `}}`
+			out = append(out, compShape{class: "deep-ok:" + kind, label: fmt.Sprintf("fault-free %s chain of depth %d", kind, d), text: ok})
 		}
 	}
 	return out
